@@ -557,7 +557,7 @@ def io_rules(ctx, chk, facts, prog):
             if r.status != 'ok':
                 bad = 'IO::set_byte(%#x) can diverge: %s' % (off, r.detail)
                 break
-            stores = [e for e in r.state.events if e[0] == 'store']
+            stores = effective_stores(r.state.events)
             if note == 'readonly' and stores:
                 bad = 'write to read-only register %s stores %s' % (name, [s[2] for s in stores])
                 break
@@ -598,7 +598,9 @@ def io_rules(ctx, chk, facts, prog):
         else:
             chk.ok('C10.7', key, sample={'register': name, 'offset': off, 'mask': mask_, 'paths': npaths})
     # unassigned offsets: constant on read, no effect on write
-    ip2 = absint.Interp(facts, opaque=[n for n in prog.fns if n.startswith('devices::') and n not in (IO_SET, IO_GET)])
+    iofam_ = families(prog, [IO_SET, IO_GET])
+    ip2 = absint.Interp(facts, opaque=[n for n in prog.fns if n.startswith('devices::') and n not in iofam_ and
+                                       not n.startswith('devices::interrupts::')])
     st = ip2.new_state()
     io = ip2.arg_object(st, 'io')
     addr = S(16, 'ioaddr')
@@ -619,7 +621,7 @@ def io_rules(ctx, chk, facts, prog):
     io = ip2.arg_object(st, 'io')
     silent = 0
     for r in ip2.run(IO_SET, [io, addr, S(8, 'v')], st):
-        ev = [e for e in r.state.events if e[0] in ('call', 'store')]
+        ev = [e for e in r.state.events if e[0] == 'call'] + effective_stores(r.state.events)
         if r.status == 'ok' and not ev:
             silent += 1
     if silent >= 1:
